@@ -81,7 +81,7 @@ def run(c):
     for cat in ("0 headers", "50 headers", "': ' inside a value", "binary body", "near miss: unknown method", "near miss: unknown version", "near miss: missing part", "near miss: non-UTF-8 byte"):
         c.need(cat)
     for lane in ("rel", "chk"):
-        obs = core.run_cases(cases, lane=lane)
+        obs = core.run_cases(cases, lane=lane, poison="http")
         for cs in cases:
             o = obs.get(cs.id)
             m, t, v, hs, body, feats, bk = meta[cs.id]
@@ -209,7 +209,7 @@ def run(c):
             cases.append(core.Case(cid, "req.parse", [ln + tail]))
             meta[cid] = (kind, ln, want)
     for lane in ("rel", "chk"):
-        obs = core.run_cases(cases, lane=lane)
+        obs = core.run_cases(cases, lane=lane, poison="http")
         for cs in cases:
             o = obs.get(cs.id)
             kind, ln, want = meta[cs.id]
